@@ -90,6 +90,21 @@ func BuildLibrary(grlText string) (*ast.KnowledgeLibrary, error) {
 	return lib, nil
 }
 
+// BuildLibraryOf builds a program, optionally as two resources.
+func BuildLibraryOf(p *grl.Program, splitAt int) (*ast.KnowledgeLibrary, error) {
+	if splitAt <= 0 || splitAt >= len(p.Rules) {
+		return BuildLibrary(grl.PrintProgram(p))
+	}
+	lib := ast.NewKnowledgeLibrary()
+	rb := builder.NewRuleBuilder(lib)
+	for _, part := range [][]*grl.Rule{p.Rules[:splitAt], p.Rules[splitAt:]} {
+		if err := rb.BuildRuleFromResource(KBName, KBVersion, pkg.NewBytesResource([]byte(grl.PrintProgram(&grl.Program{Rules: part})))); err != nil {
+			return nil, err
+		}
+	}
+	return lib, nil
+}
+
 // Instance obtains an instance by the knob-selected route.
 func Instance(lib *ast.KnowledgeLibrary, source string) (*ast.KnowledgeBase, error) {
 	switch source {
@@ -460,7 +475,7 @@ func Run(sc *core.Scenario) *Result {
 	InstallIDs("n")
 	simhook.Order = func(_ string, keys []string) []string { return keys } // sorted unless a simulation says otherwise
 	text := grl.PrintProgram(sc.Program)
-	lib, err := BuildLibrary(text)
+	lib, err := BuildLibraryOf(sc.Program, sc.Knobs.SplitAt)
 	if err != nil {
 		res.HarnessErr = fmt.Sprintf("generated program rejected by the builder: %v\n%s", err, text)
 		return res
@@ -472,6 +487,15 @@ func Run(sc *core.Scenario) *Result {
 	if err != nil {
 		res.Violations = append(res.Violations, core.Violation{Oracle: "C09.instance-failed", Property: "C09", Message: fmt.Sprintf("no instance via %q: %v", sc.Knobs.Source, err)})
 		return res
+	}
+	// earlier calls on the same instance (their own results are not judged here): whatever they
+	// leave behind must not influence the call under test
+	for i, c := range sc.Calls {
+		p := &core.Scenario{Property: sc.Property, Sim: "E", Program: sc.Program, Facts: c.Facts, Schedule: c.Schedule,
+			Removed: sc.Removed, LatSeed: sc.LatSeed + uint64(i) + 1, CancelAt: c.CancelAt,
+			Knobs: core.Knobs{MaxCycle: c.MaxCycle, RetErr: c.RetErr, Listeners: 1, Mode: c.Mode}}
+		RunOn(p, kb, &Result{Probes: map[string]int64{}, Faults: map[string]int{}, MethodCalls: map[string]int{}})
+		res.Probes["preceded-by-"+c.Mode]++
 	}
 	RunOn(sc, kb, res)
 	return res
